@@ -49,6 +49,8 @@ def rand_n(g):
     r = g.random()
     if r < 0.1:
         return 1
+    if r < 0.115:
+        return 0              # an empty sample is a valid request
     return g.randint(1, 40) if r < 0.94 else g.choice([100, 256, 257, 512, 1000, 1024, 2048, 2500])
 
 
